@@ -270,6 +270,16 @@ class _(_Line):
     def raises(self, ex, a):
         return {"Unidentifiable": ex.L.T()}
 
+    def audit(self, ex, callee, ac, a0):
+        """Besides the vocabulary audit: both sums that identify() builds itself (line 4 over the product of the sub-problems, line 6 over
+        the product of conditionals) range over exactly V - X - Y (for line 6: S - Y with S = V - X the single district)."""
+        L = ex.L
+        out = list(super().audit(ex, callee, ac, a0))
+        if callee == "y0.dsl.Sum.safe":
+            R = ex.as_set(ac.ranges)
+            out.append(("ranges-are-V-minus-X-minus-Y", L.forall(1, lambda v: R.has(v) == L.And(a0.g.N(v), L.Not(a0.X.has(v)), L.Not(a0.Y.has(v))))))
+        return out
+
     def decreases(self, ex, a0, a1):
         """Termination (C02 'terminates'): every recursive call is on a graph whose node set is a subset of the caller's, and either
         that subset is strict (lines 2, 7) or the node set is the same and the set of non-treatment nodes shrinks strictly (lines 3,
@@ -407,3 +417,43 @@ class _(Contract):
 
     def post(self, ex, a, res):
         return {"none-or-expression": z3.BoolVal(isinstance(res, (VNone, VExpr)))}
+
+
+@contract(f"{IDS}.line_6", props=["C01"])
+class _(_Line):
+    """line 6 (the function; identify() has its own inline copy): when G - X is a single district S that is also a district of G, return
+    sum_{S - Y} prod_{v in S} P(v | predecessors).  Checked here: the guards, and -- as `audit.*` obligations at the two call sites -- that
+    the sum ranges over exactly S - Y and that every conditional is taken for a node of S over an ordering of the graph's nodes."""
+    allowed_raises = ("ValueError", "RuntimeError", "NetworkXUnfeasible")
+    inline_only = True
+    returns = "expr"
+
+    def _S(self, ex, a):
+        L, g = ex.L, a.g
+        keep = lambda v: L.And(g.N(v), L.Not(a.X.has(v)))
+        CU = ex.closure(lambda p, q: g.U(p, q), "rtcU")
+        CUx = ex.closure(lambda p, q: L.And(g.U(p, q), keep(p), keep(q)), "rtcUx")
+        one = L.And(L.exists(1, lambda v: keep(v)), L.forall(2, lambda p, q: L.Implies(L.And(keep(p), keep(q)), CUx(p, q))))
+        strict = L.exists(2, lambda s, t: L.And(keep(s), g.N(t), L.Not(keep(t)), CU(s, t)))
+        return keep, one, strict
+
+    def raises(self, ex, a):
+        from y0vc.libspec import acyclic
+        L = ex.L
+        keep, one, strict = self._S(ex, a)
+        ac, _ = acyclic(ex, lambda p, q: a.g.D(p, q))
+        return {"RuntimeError": L.Not(one), "ValueError": L.And(one, strict), "NetworkXUnfeasible": L.And(one, L.Not(strict), L.Not(ac))}
+
+    def audit(self, ex, callee, ac, a0):
+        L = ex.L
+        out = list(super().audit(ex, callee, ac, a0))
+        keep, one, strict = self._S(ex, a0)
+        if callee == "y0.dsl.Sum.safe":
+            R = ex.as_set(ac.ranges)
+            out.append(("ranges-are-S-minus-Y", L.forall(1, lambda v: R.has(v) == L.And(keep(v), L.Not(a0.Y.has(v))))))
+        if callee == f"{IDS}.p_conditional":
+            out.append(("conditional-of-a-district-node", keep(ac.child.t)))
+        return out
+
+    def post(self, ex, a, res):
+        return {"type": z3.BoolVal(isinstance(res, VExpr))}
